@@ -131,7 +131,7 @@ def bounds(tier):
         'strategies': _STATE['names'],
         'letters_per_strategy': {n: len(alph[n].letters) for n in _STATE['names']},
         'alphabet_example': alph.get('CS2C8U6', next(iter(alph.values()))).letters,
-        'word_lengths': [1, 2, 'all-letters'],
+        'word_lengths': [1, 2, 'all-letters', f'each letter x {REPEAT}'],
         'configurations': len(_configs(tier)),
         'configuration_axes': {'end': ['pe', 'se'], 'rejects': [True, False], 'out': ['joint', 'percell'], 'hd': [0, 1],
                                'maxReadPairs': [None, 1, 2, 3],
@@ -141,6 +141,9 @@ def bounds(tier):
         'long_percell_word': {'pairs': LONG_PAIRS, 'maxHandles': 2,
                               'strategies': LONG_STRATEGIES_QUICK if tier == 'quick' else LONG_STRATEGIES_THOROUGH},
     }
+
+
+REPEAT = 40
 
 
 def shards(tier):
@@ -166,6 +169,9 @@ def _words(short):
         for b in letters:
             yield [a, b]
     yield list(letters)
+    # one class many times in a row: counters / limiters that only change behaviour after N occurrences
+    for a in letters:
+        yield [a] * REPEAT
 
 
 def _long_word(short):
